@@ -33,6 +33,7 @@ FIXED = [
  (["C05"], "8abcf29", "with the field cache on, a second select field carrying an already used name was filled with the cached value of the first field of that name", "select key as a, value as a where a != 'x'"),
  (["C09"], "ae03c6f", "min()/max() compared a float with an integer extreme (or an integer with a float extreme) by its truncated value: max over 2, 2.5 returned 2", "select max(value) where true  (values '2', '2.5')"),
  (["C02"], "b0f088a", "a key BETWEEN with reversed bounds was merged as a range with the other operands: 'key = 'm' or key between 'z' and 'a'' was planned as RANGE[m,a] and lost the pair m, on which the clause is true without the BETWEEN ever being evaluated", "select key where key = 'm' or key between 'z' and 'a'  (store {m})"),
+ (["C05"], "29ac3fe", "the chunk cache key of a named select field was name + '-' + first key of the chunk: the field `v-` over a chunk starting at key 00 and the field v over a chunk starting at key -00 shared one entry, so a well-typed statement failed (or showed the other field's values) in batch mode with the cache on", "select key, strlen(key) as `v-`, lower(value) as v where (`v-` >= 0) & (v = 'b')  (keys -00 -01 -02 -03 00 01, batch size 2)"),
 ]
 KNOWN = []
 def main():
